@@ -67,3 +67,45 @@ func Harness_C01_Calls() {
 	text := "App:\n    " + c01Decls[d] + "    bar2:\n        " + c01Callees[c] + " <- " + c01Methods[m] + c01Targets[t] + "\n"
 	c01Check("calls", map[string]string{"a.sysl": text})
 }
+
+var (
+	c01Inner = []string{"b = 1", "b = x", "let c = 1\n        b = c", "b = x -> (:\n          d = 1\n        )"}
+	c01Refs  = []string{"Item.code", "Item", "Base.Item.code", "Base.Item", "Nowhere.code", "Item.nothing"}
+)
+
+// views whose transforms nest, with and without a declared type, and applications mixed
+// into others whose tables refer to fields and types (resolved again for every mixer):
+// the stages that run after the tree walk (type inference, reference scoping) never crash
+//
+//verif:shard-quick 16 3
+//verif:shard-thorough 16 4
+func Harness_C01_ViewsAndMixins() {
+	var text string
+	if nd.Bool("mixin-template") {
+		ref := c01Refs[nd.IntRange("reference", 0, len(c01Refs)-1)]
+		mixers := nd.IntRange("mixers", 1, 2)
+		hostFirst := nd.Bool("host-sorts-first")
+		base := "Base [~abstract]:\n    !type Item:\n        code <: string\n    !table Order:\n        item <: " + ref + "\n"
+		host := "Shop"
+		if hostFirst {
+			host = "Alpha"
+		}
+		text = base + "\n" + host + ":\n    -|> Base\n    ep:\n        ...\n"
+		if mixers == 2 {
+			text += "\nZeta:\n    -|> Base\n    ep:\n        ...\n"
+		}
+	} else {
+		typedOuter := nd.Bool("outer-transform-typed")
+		typedInner := nd.Bool("inner-transform-typed")
+		inner := c01Inner[nd.IntRange("inner-statements", 0, len(c01Inner)-1)]
+		ot, it := "", ""
+		if typedOuter {
+			ot = "<Out> "
+		}
+		if typedInner {
+			it = "<In> "
+		}
+		text = "App:\n  !type Out:\n    a <: In\n  !type In:\n    b <: int\n  !view Foo(x <: int) -> Out:\n    x -> " + ot + "(:\n      a = x -> " + it + "(:\n        " + inner + "\n      )\n    )\n"
+	}
+	c01Check("after-walk", map[string]string{"a.sysl": text})
+}
